@@ -160,12 +160,22 @@ theorem iteration_ok (D : Nat → Nat → K) (s : St K) (h : MetaInv D s) (nAdd 
     (hin : IterOk D s nAdd newT colT newI colI) :
     ∃ s', iteration s (s.counts.length - 1) nAdd newT colT newI colI = .ok s' ∧ MetaInv D s' ∧
       s'.counts = s.counts ++ [nAdd] ∧ s'.train.length = s.train.length + nAdd ∧
-      (s.useIid = true → s'.iid.length = s.iid.length + nAdd) ∧ s'.useIid = s.useIid := by
+      (s.useIid = true → s'.iid.length = s.iid.length + nAdd) ∧ s'.useIid = s.useIid ∧
+      s'.train.map (·.it) = s.train.map (·.it) ++ List.replicate nAdd ((s.counts.length - 1 : Nat) : Int) ∧
+      (s.useIid = true →
+        s'.iid.map (·.it) = s.iid.map (·.it) ++ List.replicate nAdd ((s.counts.length - 1 : Nat) : Int)) := by
   set_option maxRecDepth 2000 in
   generalize hw' : (s.counts ++ [nAdd]).map
       (fun (c : Nat) => ((c : K) / (((s.counts ++ [nAdd]).sum : Nat) : K) : K)) = w'
   have hw'len : w'.length = s.counts.length + 1 := by rw [← hw']; simp
   have hwlen : s.weights.length = s.counts.length := h.wlen
+  have hitT : (s.train.map (upd w' (fun id => D id s.counts.length)) ++
+      newT.map (mkNew w' ((s.counts.length - 1 : Nat) : Int))).map (·.it)
+      = s.train.map (·.it) ++ List.replicate nAdd ((s.counts.length - 1 : Nat) : Int) := by
+    rw [List.map_append, List.map_map, List.map_map, ← hin.newT_len]
+    congr 1
+    rw [List.eq_replicate_iff]
+    exact ⟨by simp, fun b hb => by obtain ⟨x, _, rfl⟩ := List.mem_map.mp hb; rfl⟩
   unfold iteration
   rw [addProposalWeight_ok D s h nAdd, hw']
   simp only
@@ -190,7 +200,7 @@ theorem iteration_ok (D : Nat → Nat → K) (s : St K) (h : MetaInv D s) (nAdd 
   cases hiid : s.useIid with
   | false =>
     simp only [Bool.false_eq_true, if_false]
-    refine ⟨_, rfl, ?_, rfl, by simp [hin.newT_len], by simp, rfl⟩
+    refine ⟨_, rfl, ?_, rfl, by simp [hin.newT_len], by simp, rfl, hitT, by simp⟩
     refine ⟨by simp [hw'len], ?_, ?_, by simp only; rw [← hw'], hokT, ?_, by simp [hiid], fun _ => h.noIid hiid⟩
     · simp [refSize, hiid, hsum, h.total, hin.newT_len]
     · rw [hsum]; have := h.nonempty; omega
@@ -213,9 +223,16 @@ theorem iteration_ok (D : Nat → Nat → K) (s : St K) (h : MetaInv D s) (nAdd 
         rwa [hwlen] at this
       · obtain ⟨x, hx, rfl⟩ := List.mem_map.mp hm
         exact sampleOk_mkNew D w' _ x (by rw [hin.newI_row hiid x hx, hw'len])
+    have hitI : (s.iid.map (upd w' (fun id => D id s.counts.length)) ++
+        newI.map (mkNew w' ((s.counts.length - 1 : Nat) : Int))).map (·.it)
+        = s.iid.map (·.it) ++ List.replicate nAdd ((s.counts.length - 1 : Nat) : Int) := by
+      rw [List.map_append, List.map_map, List.map_map, ← hin.newI_len hiid]
+      congr 1
+      rw [List.eq_replicate_iff]
+      exact ⟨by simp, fun b hb => by obtain ⟨x, _, rfl⟩ := List.mem_map.mp hb; rfl⟩
     unfold addAndUpdateIid
     simp only [hnI, huI]
-    refine ⟨_, rfl, ?_, rfl, by simp [hin.newT_len], fun _ => by simp [hin.newI_len hiid], rfl⟩
+    refine ⟨_, rfl, ?_, rfl, by simp [hin.newT_len], fun _ => by simp [hin.newI_len hiid], rfl, hitT, fun _ => hitI⟩
     refine ⟨by simp [hw'len], ?_, ?_, by simp only; rw [← hw'], hokT, hokI, ?_, fun hf => by simp [hiid] at hf⟩
     · simp [refSize, hiid, hsum, h.total, hin.newI_len hiid]
     · rw [hsum]; have := h.nonempty; omega
